@@ -23,55 +23,93 @@ Proof.
     + destruct (Nat.eqb i j); [reflexivity | exact IH].
 Qed.
 
-Definition tap_of (k : kind) : option tapc :=
-  match k with KDisc t _ _ => Some t | KCont t _ => Some t | _ => None end.
+(* the tap records a controller kind controls (one per listed element), its continuous parameter sets, the slots a
+   characteristic controller writes *)
+Definition taps_of (k : kind) : list tapc :=
+  match k with
+  | KDisc t _ _ => [t] | KCont t _ => [t]
+  | KDiscV ts _ _ _ _ => ts | KContV tks _ => map fst tks
+  | _ => []
+  end.
+Definition conts_of (k : kind) : list (tapc * contp) :=
+  match k with KCont t p => [(t, p)] | KContV tks _ => tks | _ => [] end.
+Definition outs_of (k : kind) : list nat :=
+  match k with KChar _ _ out _ _ => [out] | KCharV _ ios _ _ _ => map snd ios | _ => [] end.
 
-(* every tap controller's transformer has its tap inside that controller's bounds (NaN taps are not constrained) *)
-Definition Pinv (ks : list kind) (s : cst) : Prop :=
-  forall k t, In k ks -> tap_of k = Some t -> in_bounds t (get (t_trafo t) (vars s)).
+(* every element of every tap controller (scalar or vector) has its tap inside that element's bounds (NaN taps are not constrained) *)
+Definition PinvV (ks : list kind) (v : slots) : Prop :=
+  forall k t, In k ks -> In t (taps_of k) -> in_bounds t (get (t_trafo t) v).
+Definition Pinv (ks : list kind) (s : cst) : Prop := PinvV ks (vars s).
 
-(* well-formed controller set: continuous controllers check the bounds (tap_min <= tap_max), controllers of one transformer
-   read the same tap_min / tap_max, characteristic controllers do not write a controlled tap_pos *)
+(* well-formed controller set: continuous controllers check the bounds (tap_min <= tap_max) for every element, controllers of
+   one transformer read the same tap_min / tap_max, characteristic controllers do not write a controlled tap_pos *)
 Definition WF (ks : list kind) : Prop :=
-  (forall t p, In (KCont t p) ks -> k_check p = true /\ t_min t <= t_max t) /\
-  (forall k1 k2 t1 t2, In k1 ks -> In k2 ks -> tap_of k1 = Some t1 -> tap_of k2 = Some t2 ->
+  (forall k t p, In k ks -> In (t, p) (conts_of k) -> k_check p = true /\ t_min t <= t_max t) /\
+  (forall k1 k2 t1 t2, In k1 ks -> In k2 ks -> In t1 (taps_of k1) -> In t2 (taps_of k2) ->
      t_trafo t1 = t_trafo t2 -> t_min t1 == t_min t2 /\ t_max t1 == t_max t2) /\
-  (forall k t in_res inp out pts tol, In k ks -> tap_of k = Some t -> In (KChar in_res inp out pts tol) ks -> out <> t_trafo t).
+  (forall k t k' out, In k ks -> In t (taps_of k) -> In k' ks -> In out (outs_of k') -> out <> t_trafo t).
 
 Lemma Pinv_same_vars ks s s' : vars s' = vars s -> Pinv ks s -> Pinv ks s'.
-Proof. intros E H k t Hk Ht. rewrite E. exact (H k t Hk Ht). Qed.
+Proof. unfold Pinv. intros E H. rewrite E. exact H. Qed.
 
 (* writing a value that is inside the writer's bounds (or NaN) into the writer's transformer slot keeps the invariant *)
-Lemma Pinv_write ks s k t (v : F) :
-  WF ks -> In k ks -> tap_of k = Some t -> Pinv ks s -> in_bounds t v ->
-  Pinv ks (with_vars s (set (t_trafo t) v (vars s))).
+Lemma PinvV_write ks m k t (v : F) :
+  WF ks -> In k ks -> In t (taps_of k) -> PinvV ks m -> in_bounds t v ->
+  PinvV ks (set (t_trafo t) v m).
 Proof.
-  intros (_ & W2 & _) Hk Ht HP Hv k' t' Hk' Ht'. cbn [vars with_vars].
+  intros (_ & W2 & _) Hk Ht HP Hv k' t' Hk' Ht'.
   destruct (Nat.eq_dec (t_trafo t') (t_trafo t)) as [E|E].
   - rewrite E, get_set_same. destruct (W2 k k' t t' Hk Hk' Ht Ht' (eq_sym E)) as [B1 B2].
     destruct v as [x|]; [|exact I]. cbn in *. rewrite <- B1, <- B2. exact Hv.
   - rewrite (get_set_other _ _ _ _ E). exact (HP k' t' Hk' Ht').
 Qed.
+Lemma Pinv_write ks s k t (v : F) :
+  WF ks -> In k ks -> In t (taps_of k) -> Pinv ks s -> in_bounds t v ->
+  Pinv ks (with_vars s (set (t_trafo t) v (vars s))).
+Proof. intros W Hk Ht HP Hv. unfold Pinv. cbn [vars with_vars]. eapply PinvV_write; eassumption. Qed.
+
+(* a vector write (all values computed beforehand, each inside the bounds of its own element) keeps the invariant *)
+Lemma PinvV_write_all ks k (A : Type) (tp : A -> tapc) (f : A -> F) (l : list A) :
+  WF ks -> In k ks -> (forall a, In a l -> In (tp a) (taps_of k)) -> (forall a, In a l -> in_bounds (tp a) (f a)) ->
+  forall m, PinvV ks m -> PinvV ks (write_all (map (fun a => (t_trafo (tp a), f a)) l) m).
+Proof.
+  intros W Hk. unfold write_all. induction l as [|a l IH]; intros H1 H2 m Hm; cbn [map fold_left fst snd]; [exact Hm|].
+  apply IH.
+  - intros b Hb. apply H1. right. exact Hb.
+  - intros b Hb. apply H2. right. exact Hb.
+  - eapply PinvV_write; try eassumption; [apply H1 | apply H2]; left; reflexivity.
+Qed.
+(* writes to slots that are nobody's tap *)
+Lemma PinvV_write_other ks (kvs : list (nat * F)) :
+  (forall kv k t, In kv kvs -> In k ks -> In t (taps_of k) -> fst kv <> t_trafo t) ->
+  forall m, PinvV ks m -> PinvV ks (write_all kvs m).
+Proof.
+  unfold write_all. induction kvs as [|kv kvs IH]; intros H m Hm; cbn [fold_left]; [exact Hm|].
+  apply IH; [intros kv' k t Hin; apply H; right; exact Hin|].
+  intros k t Hk Ht. rewrite get_set_other; [exact (Hm k t Hk Ht)|].
+  intros X. apply (H kv k t (or_introl eq_refl) Hk Ht). symmetry. exact X.
+Qed.
 
 Lemma keeps_ctrl ks c k : WF ks -> In k ks -> keeps cst (Pinv ks) (mk_ctrl c k).
 Proof.
   intros W Hk. pose proof W as (W1 & W2 & W3).
-  destruct k as [t lo up|t p| |in_res inp out pts tol]; unfold keeps; cbn [mk_ctrl c_conv c_step c_repair c_init c_reset c_final snd].
+  destruct k as [t lo up|t p| |in_res inp out pts tol|ts ntd lo up hl|tks ntd|in_res ios pts tol tdi];
+    unfold keeps; cbn [mk_ctrl c_conv c_step c_repair c_init c_reset c_final snd].
   - (* discrete *)
     repeat split; try (intros s H; exact H).
     intros s H. unfold disc_step. destruct (t_ntd t); [exact H|].
-    pose proof (H _ t Hk eq_refl) as Hb.
+    pose proof (H _ t Hk (or_introl eq_refl)) as Hb.
     destruct (get (t_trafo t) (vars s)) as [x|] eqn:E.
-    + apply (Pinv_write ks s _ t _ W Hk eq_refl H). cbn. cbn in Hb. apply disc_new_tap_in_bounds. exact Hb.
-    + apply (Pinv_write ks s _ t None W Hk eq_refl H). exact I.
+    + apply (Pinv_write ks s _ t _ W Hk (or_introl eq_refl) H). cbn. cbn in Hb. apply disc_new_tap_in_bounds. exact Hb.
+    + apply (Pinv_write ks s _ t None W Hk (or_introl eq_refl) H). exact I.
   - (* continuous *)
-    destruct (W1 t p Hk) as [C1 C2].
+    destruct (W1 _ t p Hk (or_introl eq_refl)) as [C1 C2].
     repeat split; try (intros s H; exact H).
     intros s H. unfold cont_step. destruct (t_ntd t); [exact H|].
     destruct (get (t_bus t) (res s)) as [vm|]; [destruct (get (t_trafo t) (vars s)) as [x|]|].
-    + apply (Pinv_write ks s _ t _ W Hk eq_refl H). cbn. apply cont_new_tap_in_bounds; assumption.
-    + apply (Pinv_write ks s _ t None W Hk eq_refl H). exact I.
-    + apply (Pinv_write ks s _ t None W Hk eq_refl H). exact I.
+    + apply (Pinv_write ks s _ t _ W Hk (or_introl eq_refl) H). cbn. apply cont_new_tap_in_bounds; assumption.
+    + apply (Pinv_write ks s _ t None W Hk (or_introl eq_refl) H). exact I.
+    + apply (Pinv_write ks s _ t None W Hk (or_introl eq_refl) H). exact I.
   - (* const *)
     repeat split; intros s H; exact H.
   - (* characteristic: writes a slot that is nobody's tap *)
@@ -79,7 +117,35 @@ Proof.
     intros s H. unfold char_step. apply (Pinv_same_vars ks (with_vars s (set out (char_value in_res inp pts s) (vars s)))); [reflexivity|].
       intros k' t' Hk' Ht'. cbn [vars with_vars].
       rewrite get_set_other; [exact (H k' t' Hk' Ht') | ].
-      intros X. apply (W3 k' t' in_res inp out pts tol Hk' Ht' Hk). symmetry. exact X.
+      intros X. apply (W3 k' t' _ out Hk' Ht' Hk (or_introl eq_refl)). symmetry. exact X.
+  - (* discrete, index array: every new value is computed from the state before the write *)
+    repeat split; try (intros s H; exact H).
+    intros s H. unfold discv_step. destruct ntd; [exact H|].
+    unfold Pinv. cbn [vars with_vars with_attrs].
+    apply (PinvV_write_all ks _ tapc (fun t => t) (disc_new_F lo up s) ts W Hk); [intros a Ha; exact Ha | | exact H].
+    intros t Ht. unfold disc_new_F. pose proof (H _ t Hk Ht) as Hb.
+    destruct (get (t_trafo t) (vars s)) as [x|]; [|exact I]. cbn. cbn in Hb. apply disc_new_tap_in_bounds. exact Hb.
+  - (* continuous, index array *)
+    repeat split; try (intros s H; exact H).
+    intros s H. unfold contv_step. destruct ntd; [exact H|].
+    unfold Pinv. cbn [vars with_vars].
+    apply (PinvV_write_all ks _ (tapc * contp) fst (cont_new_F s) tks W Hk); [intros a Ha; apply in_map; exact Ha | | exact H].
+    intros [t p] Ht. destruct (W1 _ t p Hk Ht) as [C1 C2]. unfold cont_new_F. cbn [fst snd].
+    destruct (get (t_bus t) (res s)) as [vm|]; [destruct (get (t_trafo t) (vars s)) as [x|]|]; try exact I.
+    cbn. apply cont_new_tap_in_bounds; assumption.
+  - (* characteristic, index array (TapDependentImpedance included): all written slots are nobody's tap *)
+    assert (O : forall (row : list F) kv k t, In kv (List.combine (map snd ios) row) -> In k ks -> In t (taps_of k) -> fst kv <> t_trafo t).
+    { intros row [o v] k' t' Hin Hk' Ht'. apply in_combine_l in Hin. cbn [fst].
+      exact (W3 k' t' _ o Hk' Ht' Hk Hin). }
+    repeat split; try (intros s H; exact H).
+    + intros s H. unfold charv_step. unfold Pinv. cbn [vars with_vars with_applied].
+      apply PinvV_write_other; [|exact H].
+      intros kv k' t' Hin Hk' Ht'. apply in_map_iff in Hin. destruct Hin as (io & <- & Hio). cbn [fst].
+      apply (W3 k' t' _ (snd io) Hk' Ht' Hk). apply in_map. exact Hio.
+    + intros s H. unfold charv_init. destruct tdi as [[|]|]; exact H.
+    + intros s H. unfold charv_final. destruct tdi as [[|]|]; try exact H.
+      destruct (geta c (attrs s)) as [|row rest]; [exact H|].
+      unfold Pinv. cbn [vars with_vars]. apply PinvV_write_other; [apply O | exact H].
 Qed.
 
 Lemma run_stream_keeps ks s : Pinv ks s -> Pinv ks (fst (run_stream s)).
